@@ -571,6 +571,31 @@ pub fn run(ctx: &Ctx) -> i32 {
         });
         rep.add(out);
     }
+    // (3c) what the first two characters of a file may be: a guess at the encoding from the first
+    // bytes (a zero byte "must be" half of a UTF-16 code unit ...) shows only for such files.  NUL and
+    // other control characters, a letter, a blank, a non-ASCII letter in either position, before a
+    // program with a lexical and a semantic fault, at even and odd lengths - the five encodings of each
+    // text must be observed alike
+    {
+        let firsts = ["\u{0}", "\u{1}", "P", " ", "\n", "\u{e9}", "\u{20ac}", "(", "\u{ff}", "\u{fe}"];
+        let mut items: Vec<String> = vec![];
+        for a in firsts.iter() {
+            for b in firsts.iter() {
+                if !a.contains('\u{0}') && !b.contains('\u{0}') && !(a.contains('\u{1}') || b.contains('\u{1}')) {
+                    continue;
+                }
+                for pad in ["", " "] {
+                    items.push(format!("{}{}ROGRAM p{}\nVAR\nx : INT; (* caf\u{e9} *)\nEND_VAR\nx := y; ?\nEND_PROGRAM\n", a, b, pad));
+                }
+            }
+        }
+        let out = run_items(&items, ctx.threads, |text, stats| {
+            stats.case(true, hash_str(text));
+            stats.class("first-two-characters");
+            witness(&json!({"text": text})).map_err(|d| Failure::new("first-characters", "encoding-dependent", d, json!({"text": text})))
+        });
+        rep.add(out);
+    }
     // (1) encodings
     let cases = ctx.tier.pick(800, 15_000);
     let out = run_tapes("C14", ctx.seed, ctx.threads, cases, 600, |tape, stats, counting| {
@@ -605,7 +630,7 @@ pub fn witness(w: &Value) -> Result<(), String> {
 
 pub fn replay(ctx: &Ctx, v: &Value) -> i32 {
     let r: Result<(), String> = match v["check"].as_str().unwrap_or("") {
-        "encodings" | "witness" => witness(&v["inputs"]),
+        "encodings" | "witness" | "first-characters" => witness(&v["inputs"]),
         "byte-insertion" => {
             let b = v["inputs"]["byte"].as_u64().unwrap_or(0) as u8;
             let name = v["inputs"]["position"].as_str().unwrap_or("");
